@@ -384,11 +384,17 @@ pub fn record(args: &[String]) {
     let empty_dir = std::env::temp_dir().join(format!("zv-empty-{}", std::process::id()));
     std::fs::create_dir_all(&empty_dir).unwrap();
     let norepo = Repo::new(0);
+    // a repository without any commit
+    let empty_repo = std::env::temp_dir().join(format!("zv-nocommit-{}", std::process::id()));
+    std::fs::create_dir_all(&empty_repo).unwrap();
+    let _ = Command::new("git").args(["init", "-q", "-b", "main"]).current_dir(&empty_repo).output();
     let events = par_map(&idx, |i| {
         let mut rng = StdRng::seed_from_u64(seed.wrapping_mul(104_729).wrapping_add(*i as u64));
         if i % 40 == 39 {
             // special situations
-            let (a, env, rm): (Vec<String>, Vec<(String, String)>, Vec<&str>) = match rng.gen_range(0..4) {
+            let (a, env, rm): (Vec<String>, Vec<(String, String)>, Vec<&str>) = match rng.gen_range(0..6) {
+                4 => (vec!["version".into(), "-C".into(), empty_repo.display().to_string()], vec![], vec![]),                // no commits
+                5 => (vec!["flow".into(), "-C".into(), empty_repo.display().to_string(), "--output-format".into(), "pep440".into()], vec![], vec![]),
                 0 => (vec!["version".into(), "-C".into(), empty_dir.display().to_string()], vec![], vec![]),                 // not a repository
                 1 => (vec!["version".into(), "-C".into(), norepo.dir.display().to_string()], vec![("PATH".into(), "/nonexistent".into())], vec![]), // git missing
                 2 => (vec!["flow".into(), "-C".into(), "/nonexistent/dir".into()], vec![], vec![]),
@@ -427,6 +433,7 @@ pub fn record(args: &[String]) {
         event("args", &a, &r, verbose, quiet_same, json!({"stdin": stdin_class}))
     });
     let _ = std::fs::remove_dir_all(&empty_dir);
+    let _ = std::fs::remove_dir_all(&empty_repo);
     let mut out = std::io::BufWriter::new(std::fs::File::create(&args[2]).unwrap());
     for e in &events {
         writeln!(out, "{e}").unwrap();
